@@ -76,6 +76,10 @@ type GenOpts struct {
 	// Surroundings: 1..3 force a project notation file / a settings file with a header
 	// / a state directory at the module root
 	Surroundings int
+	// NearMiss: forces the near-miss field names
+	NearMiss bool
+	// CRLF: the setup file (and its variants) has CRLF line terminators
+	CRLF bool
 }
 
 var RejectFamilies = []string{
@@ -124,6 +128,13 @@ func GenWorld(r *Rng, opts GenOpts, variantCount int) *WorldSpec {
 	surroundings := sr.Intn(9) // 0..2: something is there, else nothing
 	if opts.Surroundings > 0 {
 		surroundings = opts.Surroundings - 1
+	}
+	// near-miss names: one side of a struct pair has Note, the other NoteA and
+	// NoteB (same type): no match in either direction, and two equally close
+	// candidates for whoever starts guessing what the user meant
+	nearMiss := !opts.Clean && (opts.NearMiss || sr.Chance(1, 3))
+	if sr.Chance(1, 10) {
+		opts.CRLF = true
 	}
 	// --- data packages
 	nStructs := r.Range(1, 3)
@@ -199,6 +210,11 @@ func GenWorld(r *Rng, opts GenOpts, variantCount int) *WorldSpec {
 					t = f.domainType
 				}
 				fmt.Fprintf(&b, "\t%s %s\n", f.name, t)
+			}
+			if nearMiss && domain {
+				b.WriteString("\tNote string\n\tRemark1 int\n")
+			} else if nearMiss {
+				b.WriteString("\tNoteA string\n\tNoteB string\n\tRemark int\n\tRemark2 int\n")
 			}
 			b.WriteString("}\n\n")
 			if domain && r.Chance(1, 3) {
@@ -755,9 +771,19 @@ func GenWorld(r *Rng, opts GenOpts, variantCount int) *WorldSpec {
 		return b.String()
 	}
 
-	w.Files[w.Setup] = build(0)
+	// a setup file saved with CRLF line terminators is Go like any other
+	crlf := func(t string) string {
+		if opts.CRLF {
+			return strings.ReplaceAll(t, "\n", "\r\n")
+		}
+		return t
+	}
+	if opts.CRLF {
+		feat["setup-file-crlf"] = true
+	}
+	w.Files[w.Setup] = crlf(build(0))
 	for v := 1; v <= variantCount; v++ {
-		w.Variants = append(w.Variants, build(v))
+		w.Variants = append(w.Variants, crlf(build(v)))
 	}
 	if hooksPkg {
 		var hb strings.Builder
